@@ -220,3 +220,97 @@ Proof. exact sp_rerun_runs. Qed.
 Print Assumptions c13_lattice_idempotent. Print Assumptions c13_lattice_closed_rows_unchanged. Print Assumptions c13_lattice_incremental.
 Print Assumptions c13_lattice_history. Print Assumptions c13_lattice_push. Print Assumptions c13_lattice_raise.
 Print Assumptions c13_lattice_dupkey_refuted. Print Assumptions c13_lattice_example_input. Print Assumptions c13_lattice_example_runs.
+
+(* ================= lattice relations WITH aggregation / negation =================
+   Model: LatEngine/LatAggEval.v arun_plan (C04 over lattices: LatEval.v + the MirBodyItem::Agg arm; run() = update_indices
+   followed by the SCCs, so the program value between runs IS its rows).  Proofs: LatEngine/LatAggRerun.v (on top of
+   LatAggMain.lat_agg_stratified_model and LatParAggMain.strat_lat_model_unique).  For programs with aggregation C13 demands
+   idempotence only (a monotone re-run keeps the aggregate results of the earlier run: no `fresh run on the union` statement).
+   ainput_ok = declared arities, lattice columns hold lattice elements, at most one row per key in every lattice relation,
+   duplicate-free plain relations.  Tied by gen/c13_latagg.py (histories run;run and run;push;run;run of the lattice +
+   aggregate family of gen/c04_lat.py on the real code, serial and parallel; model column LatAggRerunScript.lat_agg_script). *)
+From AV Require LatEngine.LatAggSem.
+From AV Require LatEngine.LatAggTrans.
+From AV Require LatEngine.LatAggMain.
+From AV Require LatEngine.LatAggRerun.
+From AV Require LatEngine.LatAggExample.
+From AV Require LatEngine.LatAggRerunExample.
+From AV Require Import Engine.InterfaceAgg.
+(* the executable histories the tie evaluates next to the real code: built and audited with this file *)
+From AV Require LatEngine.LatAggRerunScript.
+
+(* a second run() on the unmodified rows of a TERMINATED run leaves every relation the same rows up to their order: the
+   same set, the same number of rows, equal lattice values - also when later strata aggregate / negate lattice relations *)
+Theorem c13_lattice_agg_idempotent : forall (V : Type) (I : LatSyntax.linterp V), LatSyntax.veqb_ok I ->
+  forall vagg : nat -> list (list V) -> list V, (forall a l l', Permutation l l' -> vagg a l = vagg a l') ->
+  forall (islat : rel -> bool) (lle : rel -> V -> V -> Prop) (jm : rel -> V -> V -> V * bool),
+  (forall r, islat r = true -> LatSem.lat_laws (lle r) (jm r)) ->
+  forall shuffle : nat -> list nat -> list nat, (forall n l x, In x (shuffle n l) <-> In x l) ->
+  forall ashuffle : nat -> list nat -> list nat, (forall n l, Permutation (ashuffle n l) l) ->
+  forall (swap_oracle : nat -> list nat -> list nat -> bool) (arities : list (rel * nat)), arities_functional arities ->
+  forall (P : list rule) (N : var), LatAggSem.amonotone_program I islat lle N P ->
+  forall pl : plan, validate arities P pl = true -> LatAggEval.alat_plan_ok islat arities pl = true -> LatAggTrans.plan_below N pl = true ->
+  forall (fuel fuel' : nat) (Rin : rel -> list (LatSyntax.vtuple V)) (st1 st2 : LatEval.lstate),
+  LatAggMain.ainput_ok I islat lle arities Rin ->
+  LatAggEval.arun_plan I vagg islat jm shuffle ashuffle swap_oracle fuel pl Rin = Some st1 ->
+  LatAggEval.arun_plan I vagg islat jm shuffle ashuffle swap_oracle fuel' pl (LatEval.l_rows st1) = Some st2 ->
+  forall r, Permutation (LatEval.l_rows st2 r) (LatEval.l_rows st1 r).
+Proof. exact @LatAggRerun.lat_agg_rerun_idempotent. Qed.
+
+(* why: the rows a terminated run leaves are legal rows closed under the rules of EVERY stratum, the aggregates / negations
+   evaluated over those same final rows ... *)
+Theorem c13_lattice_agg_run_closed : forall (V : Type) (I : LatSyntax.linterp V), LatSyntax.veqb_ok I ->
+  forall vagg : nat -> list (list V) -> list V, (forall a l l', Permutation l l' -> vagg a l = vagg a l') ->
+  forall (islat : rel -> bool) (lle : rel -> V -> V -> Prop) (jm : rel -> V -> V -> V * bool),
+  (forall r, islat r = true -> LatSem.lat_laws (lle r) (jm r)) ->
+  forall shuffle : nat -> list nat -> list nat, (forall n l x, In x (shuffle n l) <-> In x l) ->
+  forall ashuffle : nat -> list nat -> list nat, (forall n l, Permutation (ashuffle n l) l) ->
+  forall (swap_oracle : nat -> list nat -> list nat -> bool) (arities : list (rel * nat)), arities_functional arities ->
+  forall (P : list rule) (N : var), LatAggSem.amonotone_program I islat lle N P ->
+  forall pl : plan, validate arities P pl = true -> LatAggEval.alat_plan_ok islat arities pl = true -> LatAggTrans.plan_below N pl = true ->
+  forall (fuel : nat) (Rin : rel -> list (LatSyntax.vtuple V)) (st : LatEval.lstate),
+  LatAggMain.ainput_ok I islat lle arities Rin ->
+  LatAggEval.arun_plan I vagg islat jm shuffle ashuffle swap_oracle fuel pl Rin = Some st ->
+  LatAggMain.ainput_ok I islat lle arities (LatEval.l_rows st)
+  /\ forall s, In s (plan_strata P pl) -> LatAggSem.aclosedH I vagg islat lle (LatEval.l_rows st) s (LatSem.dbof (LatEval.l_rows st)).
+Proof. exact @LatAggRerun.lat_agg_run_closed. Qed.
+
+(* ... and a run started from ANY such rows leaves every relation unchanged *)
+Theorem c13_lattice_agg_closed_rows_unchanged : forall (V : Type) (I : LatSyntax.linterp V), LatSyntax.veqb_ok I ->
+  forall vagg : nat -> list (list V) -> list V, (forall a l l', Permutation l l' -> vagg a l = vagg a l') ->
+  forall (islat : rel -> bool) (lle : rel -> V -> V -> Prop) (jm : rel -> V -> V -> V * bool),
+  (forall r, islat r = true -> LatSem.lat_laws (lle r) (jm r)) ->
+  forall shuffle : nat -> list nat -> list nat, (forall n l x, In x (shuffle n l) <-> In x l) ->
+  forall ashuffle : nat -> list nat -> list nat, (forall n l, Permutation (ashuffle n l) l) ->
+  forall (swap_oracle : nat -> list nat -> list nat -> bool) (arities : list (rel * nat)), arities_functional arities ->
+  forall (P : list rule) (N : var), LatAggSem.amonotone_program I islat lle N P ->
+  forall pl : plan, validate arities P pl = true -> LatAggEval.alat_plan_ok islat arities pl = true -> LatAggTrans.plan_below N pl = true ->
+  forall (fuel : nat) (R : rel -> list (LatSyntax.vtuple V)) (st : LatEval.lstate),
+  LatAggMain.ainput_ok I islat lle arities R ->
+  (forall s, In s (plan_strata P pl) -> LatAggSem.aclosedH I vagg islat lle R s (LatSem.dbof R)) ->
+  LatAggEval.arun_plan I vagg islat jm shuffle ashuffle swap_oracle fuel pl R = Some st ->
+  forall r, Permutation (LatEval.l_rows st r) (R r).
+Proof. exact @LatAggRerun.lat_agg_closed_rows_unchanged. Qed.
+
+(* non-vacuity: shortest paths over Dual (rows raised over several iterations) with a count and a negation over the lattice
+   (LatAggExample.v, plan shape of the macro; its hypotheses are discharged there: ag_checks, ag_monotone, ag_input_ok):
+   both runs of the model terminate and the second returns the identical five relations; the theorem applies to the first
+   run for every fuel of the second *)
+Example c13_lattice_agg_example_runs :
+  match LatAggRerunExample.ag_run LatAggExample.ag_input with
+  | Some st1 => option_map (fun st2 => LatAggRerunExample.ag_obs (LatEval.l_rows st2))
+                  (LatAggRerunExample.ag_run (LatAggRerunScript.afreeze LatAggRerunExample.ag_rels (LatEval.l_rows st1)))
+                = Some (LatAggRerunExample.ag_obs (LatEval.l_rows st1))
+                /\ map (@length _) (LatAggRerunExample.ag_obs (LatEval.l_rows st1)) = [4; 6; 6; 3; 3]%nat
+  | None => False
+  end.
+Proof. exact LatAggRerunExample.ag_rerun_runs. Qed.
+Example c13_lattice_agg_example : exists st1,
+  LatAggRerunExample.ag_run LatAggExample.ag_input = Some st1
+  /\ forall fuel' st2, LatAggEval.arun_plan LatVocab.lv_interp Vocab.std_aint LatExample.sp_islat LatExample.sp_jm LatVocab.lv_shuffle LatVocab.lv_shuffle LatVocab.lv_swap
+                         fuel' LatAggExample.ag_plan (LatEval.l_rows st1) = Some st2 ->
+     forall r, Permutation (LatEval.l_rows st2 r) (LatEval.l_rows st1 r).
+Proof. exact LatAggRerunExample.ag_rerun_instance. Qed.
+
+Print Assumptions c13_lattice_agg_idempotent. Print Assumptions c13_lattice_agg_run_closed. Print Assumptions c13_lattice_agg_closed_rows_unchanged.
+Print Assumptions c13_lattice_agg_example_runs. Print Assumptions c13_lattice_agg_example.
